@@ -426,3 +426,9 @@ def closing_fails_a_waiting_request(c, state):
     c._connection_lost()
     assert c.communication_channel is None and ghost("T")[-1] == "transport_stop" and "hb_stop" in ghost("T")
     assert fut.state == (CANCELLED if state == PENDING else state)
+
+
+ASSUMPTIONS = [
+    "asyncio is trusted behind the contract stubs: a cancelled task/future does not continue, asyncio.timeout cancels what it guards, locks are mutually exclusive, queues are FIFO, tasks switch only at awaits; interleavings inside one await are represented by 'the awaited object completes with any admissible value, times out, or the connection closes'",
+    "CEMIMPropReadResponse always carries at least one data octet (parser invariant)",
+]
